@@ -7,6 +7,5 @@ CONSTANTS
   GenVars = {"x"}
   SimpleKinds = {"assign", "use", "cuse", "citer", "cbind", "cwal"}
   Shape = "any"
-INVARIANT InvAll
-INVARIANT EmitDone
+INVARIANT InvAllLive
 CHECK_DEADLOCK FALSE
